@@ -234,3 +234,121 @@ class SimFS:
         if path not in self.files:
             raise FileNotFoundError(errno.ENOENT, "simulated: no such file", path)
         return _SimReader(self, self.files[path])
+
+
+# ---------------------------------------------------------------------------------------------
+# process-global state of the package under test
+# ---------------------------------------------------------------------------------------------
+class GlobalStateGuard:
+    """Lets the *reference* execution of an algorithm see the package's module-level and class-level
+    state exactly as it was right after import ("runs alone"), while the history under test keeps the
+    state its own predecessors left behind. Without this, a result cached at module level (or on a class,
+    or in a mutable default argument) would poison the reference in the same way as the run it is
+    supposed to judge, and the comparison would pass.
+
+    Captured: plain data attributes (None, numbers, strings, tuples, dict, list, set, ndarray) of every
+    module whose name starts with the prefix and of the non-pydantic classes defined there; mutable default
+    arguments of its functions; functools caches are cleared on entry (they cannot be restored)."""
+
+    _PLAIN = (type(None), bool, int, float, complex, str, bytes, tuple, dict, list, set, frozenset, np.ndarray)
+
+    def __init__(self, prefix="pyoma2"):
+        import copy as _copy
+        import sys as _sys
+
+        self._copy = _copy
+        self.prefix = prefix
+        self.owners = []  # (owner object, {name: pristine deep copy})
+        self.defaults = []  # (mutable default object, pristine deep copy)
+        self.caches = []
+        try:
+            from pydantic import BaseModel
+        except Exception:  # pragma: no cover
+            BaseModel = ()
+        seen_cls = set()
+        for mname in sorted(m for m in _sys.modules if m == prefix or m.startswith(prefix + ".")):
+            mod = _sys.modules[mname]
+            if mod is None:
+                continue
+            self.owners.append((mod, self._plain_attrs(mod)))
+            for name, val in list(vars(mod).items()):
+                if isinstance(val, type) and getattr(val, "__module__", "").startswith(prefix) and val not in seen_cls:
+                    seen_cls.add(val)
+                    if BaseModel and isinstance(val, type) and issubclass(val, BaseModel):
+                        continue
+                    self.owners.append((val, self._plain_attrs(val)))
+                    for f in vars(val).values():
+                        self._scan_function(getattr(f, "__func__", f))
+                elif callable(val) and getattr(val, "__module__", "") and str(getattr(val, "__module__", "")).startswith(prefix):
+                    self._scan_function(val)
+
+    def _plain_attrs(self, owner):
+        out = {}
+        for name, val in list(vars(owner).items()):
+            if name.startswith("__") or isinstance(val, types.ModuleType):
+                continue
+            if type(val) in self._PLAIN:
+                try:
+                    out[name] = self._copy.deepcopy(val)
+                except Exception:
+                    pass
+        return out
+
+    def _scan_function(self, f):
+        if hasattr(f, "cache_clear"):
+            self.caches.append(f)
+            f = getattr(f, "__wrapped__", f)
+        for d in list(getattr(f, "__defaults__", None) or ()) + list((getattr(f, "__kwdefaults__", None) or {}).values()):
+            if type(d) in (dict, list, set):
+                self.defaults.append((d, self._copy.deepcopy(d)))
+
+    @staticmethod
+    def _assign_in_place(obj, content):
+        if isinstance(obj, dict):
+            obj.clear()
+            obj.update(content)
+        elif isinstance(obj, list):
+            obj[:] = content
+        elif isinstance(obj, set):
+            obj.clear()
+            obj.update(content)
+
+    def enter(self):
+        """Switch the package to its pristine state; returns the token needed to switch back."""
+        token = {"attrs": [], "defaults": []}
+        for owner, pristine in self.owners:
+            cur = vars(owner)
+            for name in [n for n, v in list(cur.items()) if not n.startswith("__") and type(v) in self._PLAIN]:
+                token["attrs"].append((owner, name, True, cur[name]))
+                if name in pristine:
+                    setattr(owner, name, self._copy.deepcopy(pristine[name]))
+                else:
+                    try:
+                        delattr(owner, name)  # did not exist after import
+                    except Exception:
+                        pass
+            for name in pristine:
+                if name not in cur:
+                    token["attrs"].append((owner, name, False, None))
+                    setattr(owner, name, self._copy.deepcopy(pristine[name]))
+        for obj, pristine in self.defaults:
+            token["defaults"].append((obj, self._copy.copy(obj)))
+            self._assign_in_place(obj, self._copy.deepcopy(pristine))
+        for f in self.caches:
+            try:
+                f.cache_clear()
+            except Exception:
+                pass
+        return token
+
+    def exit(self, token):
+        for owner, name, existed, val in token["attrs"]:
+            try:
+                if existed:
+                    setattr(owner, name, val)
+                else:
+                    delattr(owner, name)
+            except Exception:
+                pass
+        for obj, content in token["defaults"]:
+            self._assign_in_place(obj, content)
